@@ -244,9 +244,14 @@ func H_C11_nontest() {
 	c := WithConfig(opts...)
 	standalone := vxrt.Bool("standalone")
 	var got, rootFile string
+	viaTesting := vxrt.Bool("helper-in-a-file-named-testing/testing.go")
 	vxrt.RunAsSubtest(func(*testing.T) {
 		_, rootFile, _, _ = runtime.Caller(0)
-		got, _ = vxH11bHelper(c, "TestN", standalone)
+		if viaTesting {
+			got, _ = vxH11cHelper(c, "TestN", standalone)
+		} else {
+			got, _ = vxH11bHelper(c, "TestN", standalone)
+		}
 	})
 	base := strings.TrimSuffix(filepath.Base(rootFile), ".go")
 	name := base + ".snap"
@@ -270,9 +275,9 @@ func H_C11_created() {
 	vxrt.Chdir()
 	dir := vxrt.Dir() + "/abs/snaps"
 	opts := []func(*Config){Dir(dir), Filename("fn")}
-	ext := ""
-	if vxrt.Bool("with-ext") {
-		ext = ".txt"
+	// Ext is appended as given: with a leading dot or without one
+	ext := []string{"", ".txt", "golden"}[vxrt.Choice("ext", 3)]
+	if ext != "" {
 		opts = append(opts, Ext(ext))
 	}
 	c := WithConfig(opts...)
